@@ -73,22 +73,22 @@ def atype(rng):
 def gen_line(rng, tricky=0.15):
     """-> (constructor name, Coq term of type sline, natural contexts)"""
     I = lambda: ident(rng, tricky)  # noqa
-    forms = ["LModule", "LSubmodule", "LProgram", "LBlockData", "LType", "LEnum", "LInterface", "LAbstract",
-             "LModProcImpl", "LSubroutine", "LFunction", "LEnd", "LEndUnit", "LEndBlock", "LEndAssociate", "LContains",
-             "LAccess", "LSequence", "LUse", "LCommon", "LNamelist", "LBound", "LFinal", "LModProcRef", "LDecl",
-             "LEnumerator", "LBlock", "LAssociate", "LImplicitNone", "LExec"]
+    forms = ["XModule", "XSubmodule", "XProgram", "XBlockData", "XType", "XEnum", "XInterface", "XAbstract",
+             "XModProcImpl", "XSubroutine", "XFunction", "XEnd", "XEndUnit", "XEndBlock", "XEndAssociate", "XContains",
+             "XAccess", "XSequence", "XUse", "XCommon", "XNamelist", "XBound", "XFinal", "XModProcRef", "XDecl",
+             "XEnumerator", "XBlock", "XAssociate", "XImplicitNone", "XExec"]
     f = rng.choice(forms)
     unit_ctx = [("KModule", False, 0), ("KProgram", False, 0), ("KSubroutine", False, 0), ("KFunction", False, 0)]
-    if f == "LModule":
-        return f, f"LModule {mask(rng)} {nb(rng)} {coq_str(I())}", [("KFile", False, 0)]
-    if f == "LSubmodule":
+    if f == "XModule":
+        return f, f"XModule {mask(rng)} {nb(rng)} {coq_str(I())}", [("KFile", False, 0)]
+    if f == "XSubmodule":
         par = f"(Some {coq_str(I())})" if rng.random() < 0.4 else "None"
-        return f, f"LSubmodule {mask(rng)} {nb(rng)} {nb(rng)} {nb(rng)} {coq_str(I())} {par} {coq_str(I())}", [("KFile", False, 0)]
-    if f == "LProgram":
-        return f, f"LProgram {mask(rng)} {opt_name(rng, tricky)}", [("KFile", False, 0)]
-    if f == "LBlockData":
-        return f, f"LBlockData {mask(rng)} {mask(rng)} {nb(rng)} {opt_name(rng, tricky)}", [("KFile", False, 0)]
-    if f == "LType":
+        return f, f"XSubmodule {mask(rng)} {nb(rng)} {nb(rng)} {nb(rng)} {coq_str(I())} {par} {coq_str(I())}", [("KFile", False, 0)]
+    if f == "XProgram":
+        return f, f"XProgram {mask(rng)} {opt_name(rng, tricky)}", [("KFile", False, 0)]
+    if f == "XBlockData":
+        return f, f"XBlockData {mask(rng)} {mask(rng)} {nb(rng)} {opt_name(rng, tricky)}", [("KFile", False, 0)]
+    if f == "XType":
         r = rng.random()
         if r < 0.3:
             tf = f"(TSpace {nb(rng)})"
@@ -100,76 +100,76 @@ def gen_line(rng, tricky=0.15):
                 a = rng.choice(["TAbstract", "TPublic", "TPrivate", "TBindC", f"(TExtends {coq_str(I())})"])
                 attrs.append(f"({a}, {mask(rng)})")
             tf = f"(TAttrs {nb(rng)} {nb(rng)} {nb(rng)} {nb(rng)} {coq_list(attrs)})"
-        return f, f"LType {mask(rng)} {tf} {coq_str(I())}", unit_ctx[:3] + [("KBlockData", False, 0)]
-    if f == "LEnum":
-        return f, f"LEnum {mask(rng)} {mask(rng)} {mask(rng)} {nb(rng)} {nb(rng)} {nb(rng)} {nb(rng)}", unit_ctx
-    if f == "LInterface":
+        return f, f"XType {mask(rng)} {tf} {coq_str(I())}", unit_ctx[:3] + [("KBlockData", False, 0)]
+    if f == "XEnum":
+        return f, f"XEnum {mask(rng)} {mask(rng)} {mask(rng)} {nb(rng)} {nb(rng)} {nb(rng)} {nb(rng)}", unit_ctx
+    if f == "XInterface":
         if rng.random() < 0.3:
             nm = f"(Some ({nb(rng)}, {coq_str(rng.choice(GENERIC))}))"
         else:
             nm = opt_name(rng, tricky)
-        return f, f"LInterface {mask(rng)} {nm}", unit_ctx
-    if f == "LAbstract":
-        return f, f"LAbstract {mask(rng)} {mask(rng)} {nb(rng)}", unit_ctx
-    if f == "LModProcImpl":
-        return f, f"LModProcImpl {mask(rng)} {mask(rng)} {nb(rng)} {nb(rng)} {coq_str(I())}", \
+        return f, f"XInterface {mask(rng)} {nm}", unit_ctx
+    if f == "XAbstract":
+        return f, f"XAbstract {mask(rng)} {mask(rng)} {nb(rng)}", unit_ctx
+    if f == "XModProcImpl":
+        return f, f"XModProcImpl {mask(rng)} {mask(rng)} {nb(rng)} {nb(rng)} {coq_str(I())}", \
             [("KSubmodule", False, 0), ("KModule", True, 0), ("KSubmodule", True, 0)]
     proc_ctx = [("KFile", False, 0), ("KModule", True, 0), ("KInterface", False, 0), ("KSubroutine", True, 0),
                 ("KProgram", True, 0)]
-    if f == "LSubroutine":
+    if f == "XSubroutine":
         args = "None" if rng.random() < 0.3 else \
             f"(Some ({nb(rng)}, {nb(rng)}, {coq_list(coq_str(I()) for _ in range(rng.choice([0, 1, 2, 3])))}))"
-        return f, f"LSubroutine {prefixes(rng)} {mask(rng)} {nb(rng)} {coq_str(I())} {args}", proc_ctx
-    if f == "LFunction":
+        return f, f"XSubroutine {prefixes(rng)} {mask(rng)} {nb(rng)} {coq_str(I())} {args}", proc_ctx
+    if f == "XFunction":
         res = "None" if rng.random() < 0.5 else f"(Some ({nb(rng)}, {mask(rng)}, {nb(rng)}, {coq_str(I())}))"
         args = coq_list(coq_str(I()) for _ in range(rng.choice([0, 1, 2])))
-        return f, f"LFunction {prefixes(rng)} {mask(rng)} {nb(rng)} {coq_str(I())} {nb(rng)} {nb(rng)} {args} {res}", proc_ctx
+        return f, f"XFunction {prefixes(rng)} {mask(rng)} {nb(rng)} {coq_str(I())} {nb(rng)} {nb(rng)} {args} {res}", proc_ctx
     any_ctx = unit_ctx + [("KType", False, 0), ("KType", True, 0), ("KInterface", False, 0), ("KEnum", False, 0),
                           ("KBlockData", False, 0), ("KModule", True, 0), ("KSubmodule", False, 0),
                           ("KModProcImpl", False, 0)]
-    if f == "LEnd":
-        return f, f"LEnd {mask(rng)}", any_ctx
-    if f == "LEndUnit":
-        return f, f"LEndUnit {mask(rng)} {mask(rng)} {nb(rng)} {rng.choice(EWORDS)} {opt_name(rng, tricky)}", any_ctx
-    if f == "LEndBlock":
-        return f, f"LEndBlock {mask(rng)} {mask(rng)} {nb(rng)} {opt_name(rng, tricky)}", [("KSubroutine", False, 1), ("KProgram", False, 1)] + unit_ctx
-    if f == "LEndAssociate":
-        return f, f"LEndAssociate {mask(rng)} {mask(rng)} {nb(rng)} {opt_name(rng, tricky)}", unit_ctx[1:]
-    if f == "LContains":
-        return f, f"LContains {mask(rng)}", any_ctx
-    if f == "LAccess":
-        return f, f"LAccess {rng.choice(['APublic', 'APrivate', 'AProtected'])} {mask(rng)}", any_ctx
-    if f == "LSequence":
-        return f, f"LSequence {mask(rng)}", [("KType", False, 0)] + unit_ctx
-    if f == "LUse":
-        return f, f"LUse {mask(rng)} {nb(rng)} {coq_str(I())}", unit_ctx + [("KBlockData", False, 0), ("KSubmodule", False, 0)]
+    if f == "XEnd":
+        return f, f"XEnd {mask(rng)}", any_ctx
+    if f == "XEndUnit":
+        return f, f"XEndUnit {mask(rng)} {mask(rng)} {nb(rng)} {rng.choice(EWORDS)} {opt_name(rng, tricky)}", any_ctx
+    if f == "XEndBlock":
+        return f, f"XEndBlock {mask(rng)} {mask(rng)} {nb(rng)} {opt_name(rng, tricky)}", [("KSubroutine", False, 1), ("KProgram", False, 1)] + unit_ctx
+    if f == "XEndAssociate":
+        return f, f"XEndAssociate {mask(rng)} {mask(rng)} {nb(rng)} {opt_name(rng, tricky)}", unit_ctx[1:]
+    if f == "XContains":
+        return f, f"XContains {mask(rng)}", any_ctx
+    if f == "XAccess":
+        return f, f"XAccess {rng.choice(['APublic', 'APrivate', 'AProtected'])} {mask(rng)}", any_ctx
+    if f == "XSequence":
+        return f, f"XSequence {mask(rng)}", [("KType", False, 0)] + unit_ctx
+    if f == "XUse":
+        return f, f"XUse {mask(rng)} {nb(rng)} {coq_str(I())}", unit_ctx + [("KBlockData", False, 0), ("KSubmodule", False, 0)]
     vars_ = lambda: coq_list(coq_str(I()) for _ in range(rng.choice([1, 1, 2, 3])))  # noqa
-    if f == "LCommon":
-        return f, f"LCommon {mask(rng)} {nb(rng)} {nb(rng)} {nb(rng)} {nb(rng)} {coq_str(I())} {vars_()}", unit_ctx + [("KBlockData", False, 0)]
-    if f == "LNamelist":
-        return f, f"LNamelist {mask(rng)} {nb(rng)} {nb(rng)} {nb(rng)} {coq_str(I())} {vars_()}", unit_ctx
-    if f == "LBound":
+    if f == "XCommon":
+        return f, f"XCommon {mask(rng)} {nb(rng)} {nb(rng)} {nb(rng)} {nb(rng)} {coq_str(I())} {vars_()}", unit_ctx + [("KBlockData", False, 0)]
+    if f == "XNamelist":
+        return f, f"XNamelist {mask(rng)} {nb(rng)} {nb(rng)} {nb(rng)} {coq_str(I())} {vars_()}", unit_ctx
+    if f == "XBound":
         binds = coq_list(f"({coq_str(I())}, {coq_str(I())})" for _ in range(rng.choice([1, 1, 2, 3])))
-        return f, (f"LBound {mask(rng)} {mask(rng)} {nb(rng)} {nb(rng)} {nb(rng)} {nb(rng)} {nb(rng)} {binds}"), \
+        return f, (f"XBound {mask(rng)} {mask(rng)} {nb(rng)} {nb(rng)} {nb(rng)} {nb(rng)} {nb(rng)} {binds}"), \
             [("KType", True, 0)]
-    if f == "LFinal":
-        return f, f"LFinal {mask(rng)} {nb(rng)} {nb(rng)} {nb(rng)} {vars_()}", [("KType", True, 0)]
-    if f == "LModProcRef":
+    if f == "XFinal":
+        return f, f"XFinal {mask(rng)} {nb(rng)} {nb(rng)} {nb(rng)} {vars_()}", [("KType", True, 0)]
+    if f == "XModProcRef":
         dc = "None" if rng.random() < 0.6 else f"(Some ({nb(rng)}, {nb(rng)}))"
-        return f, f"LModProcRef {mask(rng)} {mask(rng)} {nb(rng)} {dc} {nb(rng)} {nb(rng)} {vars_()}", [("KInterface", False, 0)]
-    if f == "LDecl":
+        return f, f"XModProcRef {mask(rng)} {mask(rng)} {nb(rng)} {dc} {nb(rng)} {nb(rng)} {vars_()}", [("KInterface", False, 0)]
+    if f == "XDecl":
         dc = "None" if rng.random() < 0.4 else f"(Some {nb(rng)})"
-        return f, f"LDecl {tspell(rng)} {atype(rng)} {dc} {nb(rng)} {vars_()}", unit_ctx + [("KType", False, 0), ("KInterface", False, 0)]
-    if f == "LEnumerator":
-        return f, f"LEnumerator {mask(rng)} {nb(rng)} {nb(rng)} {coq_str(I())}", [("KEnum", False, 0)]
-    if f == "LBlock":
+        return f, f"XDecl {tspell(rng)} {atype(rng)} {dc} {nb(rng)} {vars_()}", unit_ctx + [("KType", False, 0), ("KInterface", False, 0)]
+    if f == "XEnumerator":
+        return f, f"XEnumerator {mask(rng)} {nb(rng)} {nb(rng)} {coq_str(I())}", [("KEnum", False, 0)]
+    if f == "XBlock":
         lab = "None" if rng.random() < 0.5 else f"(Some ({coq_str(I())}, {nb(rng)}, {nb(rng)}))"
-        return f, f"LBlock {lab} {mask(rng)}", unit_ctx[1:]
-    if f == "LAssociate":
-        return f, f"LAssociate {mask(rng)} {nb(rng)} {coq_str(I())} {coq_str(rng.choice(['x1', 'f(2)', 'a%b', 'y + 1']))}", unit_ctx[1:]
-    if f == "LImplicitNone":
-        return f, f"LImplicitNone {mask(rng)} {mask(rng)} {nb(rng)}", unit_ctx
-    return f, f"LExec {rng.randrange(11)}", unit_ctx[1:]
+        return f, f"XBlock {lab} {mask(rng)}", unit_ctx[1:]
+    if f == "XAssociate":
+        return f, f"XAssociate {mask(rng)} {nb(rng)} {coq_str(I())} {coq_str(rng.choice(['x1', 'f(2)', 'a%b', 'y + 1']))}", unit_ctx[1:]
+    if f == "XImplicitNone":
+        return f, f"XImplicitNone {mask(rng)} {mask(rng)} {nb(rng)}", unit_ctx
+    return f, f"XExec {rng.randrange(11)}", unit_ctx[1:]
 
 
 def parse_coq_strings(out):
